@@ -293,13 +293,16 @@ func (ch *chain[FR, G1, G2, GT]) evaluate(engine, key string, circuit, assignmen
 	return outcome{sat: true}
 }
 
+var errLinesBoost = 0
+
 func firstLines(s string, n int) string {
+	n += errLinesBoost
 	ls := strings.Split(s, "\n")
 	if len(ls) > n {
 		ls = ls[:n]
 	}
 	out := strings.Join(ls, " | ")
-	if len(out) > 700 {
+	if len(out) > 700 && errLinesBoost == 0 {
 		out = out[:700] + "…"
 	}
 	return out
@@ -366,6 +369,7 @@ type plkCase struct {
 	engine   string
 	vks      []plonk.VerifyingKey
 	vkCcs    []constraint.ConstraintSystem
+	base     plonk.VerifyingKey // switch mode: the key whose SRS part is the constant base key (default vks[0])
 	// one entry per verified proof (1 for fixed/witness; >= 1 for switch/same)
 	sels   []int
 	proofs []plonk.Proof
@@ -438,7 +442,11 @@ func (ch *chain[FR, G1, G2, GT]) RunPlonk(c *plkCase) outcome {
 		assign := &plkSame[FR, G1, G2, GT]{Proofs: proofs, Witnesses: wits}
 		return ch.evaluate(c.engine, key, circuit, assign)
 	case "switch":
-		base, err := rplonk.ValueOfBaseVerifyingKey[FR, G1, G2](c.vks[0])
+		baseVK := c.base
+		if baseVK == nil {
+			baseVK = c.vks[0]
+		}
+		base, err := rplonk.ValueOfBaseVerifyingKey[FR, G1, G2](baseVK)
 		if err != nil {
 			return outcome{stage: "convert", err: err.Error()}
 		}
